@@ -60,7 +60,7 @@ theorem g_notify {s : St} (h : G s) (e : String) (a : Bool) : G (notifyAll s e a
   · intro p hp
     simp only [notifyAll, List.mem_map] at hp
     obtain ⟨q, hq, rfl⟩ := hp
-    exact ME.Reach.step (.setAvail e a) (h.meReach q hq)
+    exact ME.Reach.stepRaw (.setAvail e a) (h.meReach q hq)
   · intro hal p hp x hx
     rw [hf.2.2.2.2] at hal
     rw [hf.1]
@@ -101,7 +101,7 @@ theorem g_update {s : St} (h : G s) (d : String) (o : Opts) (f : List String) (r
       have hmes : ∀ p ∈ (o.filterMap fun p => match p.2 with
             | none => none
             | some l => match findME s p.1 with
-              | some me => some (p.1, (ME.opSetEndpoints me l).1)
+              | some me => some (p.1, (ME.step me (.setEndpoints l)).1)
               | none => (ME.init 0 0 l).map fun me => (p.1, me)),
           ∃ l, (p.1, some l) ∈ o ∧ l ≠ [] ∧ ME.Reach p.2 ∧ ∀ e ∈ p.2.eps, e.id ∈ l := by
         intro p hp
@@ -119,8 +119,8 @@ theorem g_update {s : St} (h : G s) (d : String) (o : Opts) (f : List String) (r
             rw [hfm] at hqp
             simp only [Option.some.injEq] at hqp
             subst hqp
-            exact ⟨l, hqmem, hlne, ME.Reach.step (.setEndpoints l) (h.meReach _ (findME_mem hfm)),
-              ME.opSetEndpoints_ids_sub me l hlne⟩
+            exact ⟨l, hqmem, hlne, ME.api_step_reach (.setEndpoints l) (h.meReach _ (findME_mem hfm)),
+              ME.api_setEndpoints_ids_sub me l hlne⟩
           | none =>
             rw [hfm] at hqp
             cases hin : ME.init 0 0 l with
@@ -129,7 +129,7 @@ theorem g_update {s : St} (h : G s) (d : String) (o : Opts) (f : List String) (r
               rw [hin] at hqp
               simp only [Option.map_some, Option.some.injEq] at hqp
               subst hqp
-              exact ⟨l, hqmem, hlne, ME.Reach.init (Int.le_refl 0) (Int.le_refl 0) hin, ME.init_ids_sub hin⟩
+              exact ⟨l, hqmem, hlne, ME.api_init_reach hin, ME.api_init_ids_sub hin⟩
       constructor
       · intro p hp
         obtain ⟨l, _, _, hr, _⟩ := hmes p hp
@@ -157,18 +157,18 @@ theorem g_update {s : St} (h : G s) (d : String) (o : Opts) (f : List String) (r
           have hentry : ∃ me', (pd.1, me') ∈ (o.filterMap fun p => match p.2 with
               | none => none
               | some l => match findME s p.1 with
-                | some me => some (p.1, (ME.opSetEndpoints me l).1)
+                | some me => some (p.1, (ME.step me (.setEndpoints l)).1)
                 | none => (ME.init 0 0 l).map fun me => (p.1, me)) := by
             cases hfm : findME s pd.1 with
             | some me =>
-              refine ⟨(ME.opSetEndpoints me l).1, List.mem_filterMap.mpr ⟨pd, hpd, ?_⟩⟩
+              refine ⟨(ME.step me (.setEndpoints l)).1, List.mem_filterMap.mpr ⟨pd, hpd, ?_⟩⟩
               simp only [hq2, hfm]
             | none =>
               cases l with
               | nil => exact absurd rfl hlne
               | cons first rest =>
                 cases hin : ME.init 0 0 (first :: rest) with
-                | none => simp [ME.init] at hin
+                | none => have := ME.api_init_isSome 0 0 first rest; rw [hin] at this; cases this
                 | some me' =>
                   refine ⟨me', List.mem_filterMap.mpr ⟨pd, hpd, ?_⟩⟩
                   simp only [hq2, hfm, hin, Option.map_some]
